@@ -8,7 +8,9 @@ from fractions import Fraction
 import math
 
 _TABLE = {}
+_EXTRACT_MEMO = {}
 _COUNTER = [0]
+NARROW = False   # push bit extraction through + - * and compute zero-extended narrow products at narrow width (sound BV identities; helps or hurts the SAT back end depending on the formula)
 
 
 class N:
@@ -46,6 +48,7 @@ def _mk(op, args, sort, val=None):
 def reset():
     """Forget all terms (frees memory between obligations groups). Constants are re-created lazily."""
     _TABLE.clear()
+    _EXTRACT_MEMO.clear()
     global ZERO, ONE, MONE, TRUE, FALSE
     ZERO = rconst(0)
     ONE = rconst(1)
@@ -304,6 +307,36 @@ def bvbin(op, a, b):
         return bvconst(0, w)
     if op in ('bvudiv',) and b.op == 'const' and b.val == 1:
         return a
+    if NARROW and b.op == 'const' and b.val > 0 and (b.val & (b.val - 1)) == 0:
+        k = b.val.bit_length() - 1
+        if op == 'bvurem':
+            return bvconst(0, w) if k == 0 else bvext(bvextract(a, k - 1, 0), w, False)
+        if op == 'bvudiv':
+            return bvext(bvextract(a, w - 1, k), w, False)
+    if NARROW and op == 'bvlshr' and b.op == 'const' and 0 < b.val < w:
+        return bvext(bvextract(a, w - 1, b.val), w, False)
+    if NARROW and op == 'bvand':
+        for p, q in ((a, b), (b, a)):
+            if p.op == 'const' and p.val > 0 and (p.val & (p.val + 1)) == 0:
+                k = p.val.bit_length()
+                return bvext(bvextract(q, k - 1, 0), w, False)
+    if w == 1:
+        if op in ('bvadd', 'bvsub'):
+            return bvbin('bvxor', a, b)
+        if op == 'bvmul':
+            return bvbin('bvand', a, b)
+    # product / sum of zero-extended narrow values that cannot overflow: compute at the narrow width
+    if NARROW and op in ('bvmul', 'bvadd') and a.op == 'zext' and b.op == 'zext':
+        wa, wb = a.args[0].sort[1], b.args[0].sort[1]
+        need = (wa + wb) if op == 'bvmul' else (max(wa, wb) + 1)
+        if need < w:
+            return bvext(bvbin(op, bvext(a.args[0], need, False), bvext(b.args[0], need, False)), w, False)
+    if NARROW and op in ('bvmul', 'bvadd') and ((a.op == 'zext' and b.op == 'const') or (b.op == 'zext' and a.op == 'const')):
+        z, c = (a, b) if a.op == 'zext' else (b, a)
+        wz = z.args[0].sort[1]
+        need = (wz + c.val.bit_length()) if op == 'bvmul' else (max(wz, c.val.bit_length()) + 1)
+        if 0 < need < w:
+            return bvext(bvbin(op, bvext(z.args[0], need, False), bvconst(c.val, need)), w, False)
     return _mk(op, (a, b), a.sort)
 
 
@@ -331,6 +364,25 @@ def bvcmp(op, a, b):
         return bconst(sx < sy if op == 'bvslt' else sx <= sy)
     if a is b:
         return bconst(op in ('eq', 'bvule', 'bvsle'))
+    # comparisons of zero-extended values: decide at the narrow width
+    za = a.args[0] if a.op == 'zext' else None
+    zb = b.args[0] if b.op == 'zext' else None
+    if op in ('eq', 'bvult', 'bvule') or (op in ('bvslt', 'bvsle') and (za is not None or a.op == 'const' and a.val >> (w - 1) == 0)
+                                          and (zb is not None or b.op == 'const' and b.val >> (w - 1) == 0)):
+        uop = {'bvslt': 'bvult', 'bvsle': 'bvule'}.get(op, op)
+        if za is not None and zb is not None:
+            m = max(za.sort[1], zb.sort[1])
+            return bvcmp(uop, bvext(za, m, False), bvext(zb, m, False))
+        if za is not None and b.op == 'const':
+            wz = za.sort[1]
+            if b.val >> wz:
+                return bconst(uop != 'eq')          # a < 2^wz <= b
+            return bvcmp(uop, za, bvconst(b.val, wz))
+        if zb is not None and a.op == 'const':
+            wz = zb.sort[1]
+            if a.val >> wz:
+                return FALSE                         # a >= 2^wz > b : a==b, a<b, a<=b all false
+            return bvcmp(uop, bvconst(a.val, wz), zb)
     return _mk(op, (a, b), 'B')
 
 
@@ -344,15 +396,72 @@ def bvext(a, w2, signed):
         return _mk('extract', (a,), ('BV', w2), (w2 - 1, 0))
     if a.op == 'const':
         return bvconst(_tosigned(a.val, w) if signed else a.val, w2)
+    if a.op == 'zext':
+        return bvext(a.args[0], w2, False)     # zero-extension composes (also under a signed extension: top bit is 0)
     return _mk('sext' if signed else 'zext', (a,), ('BV', w2), w2 - w)
 
 
+_LOWBIT_OPS = ('bvadd', 'bvsub', 'bvmul')
+_BITWISE_OPS = ('bvand', 'bvor', 'bvxor')
+
+
 def bvextract(a, hi, lo):
+    """bits hi..lo of a; pushes the extraction towards the leaves where that is an identity of bit-vector
+    arithmetic (low bits of + - * depend only on the low bits of the operands), so that F2 code written with
+    uint8 arithmetic is decided at the width it really needs."""
+    w = a.sort[1]
+    assert 0 <= lo <= hi < w, (hi, lo, w)
     if a.op == 'const':
         return bvconst(a.val >> lo, hi - lo + 1)
-    if lo == 0 and hi == a.sort[1] - 1:
+    if lo == 0 and hi == w - 1:
         return a
-    return _mk('extract', (a,), ('BV', hi - lo + 1), (hi, lo))
+    key = (a.id, hi, lo)
+    r = _EXTRACT_MEMO.get(key)
+    if r is not None:
+        return r
+    op = a.op
+    nw = hi - lo + 1
+    if op == 'extract':
+        l2 = a.val[1]
+        r = bvextract(a.args[0], hi + l2, lo + l2)
+    elif op == 'zext':
+        x = a.args[0]
+        wx = x.sort[1]
+        if hi < wx:
+            r = bvextract(x, hi, lo)
+        elif lo >= wx:
+            r = bvconst(0, nw)
+        else:
+            r = bvext(bvextract(x, wx - 1, lo), nw, False)
+    elif op == 'sext' and hi < a.args[0].sort[1]:
+        r = bvextract(a.args[0], hi, lo)
+    elif op == 'concat':
+        hi_part, lo_part = a.args
+        wl = lo_part.sort[1]
+        if hi < wl:
+            r = bvextract(lo_part, hi, lo)
+        elif lo >= wl:
+            r = bvextract(hi_part, hi - wl, lo - wl)
+        else:
+            r = _mk('extract', (a,), ('BV', nw), (hi, lo))
+    elif NARROW and op in _BITWISE_OPS:
+        r = bvbin(op, bvextract(a.args[0], hi, lo), bvextract(a.args[1], hi, lo))
+    elif NARROW and op == 'bvnot':
+        r = bvun('bvnot', bvextract(a.args[0], hi, lo))
+    elif NARROW and op in _LOWBIT_OPS and lo == 0:
+        r = bvbin(op, bvextract(a.args[0], hi, 0), bvextract(a.args[1], hi, 0))
+    elif NARROW and op == 'bvneg' and lo == 0:
+        r = bvun('bvneg', bvextract(a.args[0], hi, 0))
+    elif NARROW and op == 'ite':
+        r = rite(a.args[0], bvextract(a.args[1], hi, lo), bvextract(a.args[2], hi, lo))
+    elif NARROW and op in _LOWBIT_OPS and lo > 0:
+        # high bits of a sum/product need the low bits too: narrow to hi+1 bits first, then cut
+        inner = bvbin(op, bvextract(a.args[0], hi, 0), bvextract(a.args[1], hi, 0)) if hi < w - 1 else a
+        r = _mk('extract', (inner,), ('BV', nw), (hi, lo)) if inner.op != 'const' else bvconst(inner.val >> lo, nw)
+    else:
+        r = _mk('extract', (a,), ('BV', nw), (hi, lo))
+    _EXTRACT_MEMO[key] = r
+    return r
 
 
 def bvconcat(a, b):
